@@ -417,7 +417,7 @@ def check_counter_table(F, R, adt, table, counters):
                 continue
             if d[0] == "discr":
                 # matching on event ADTs / the writer's state is what the table is about; any other match is an extra condition
-                if d[2].startswith("event::") or d[2] in ("std::result::Result", "writer::summarize::State", "std::option::Option") and _is_event_place(w.body, d[1]):
+                if d[2].startswith("event::") or d[2] == "writer::summarize::State" or d[2] in ("std::result::Result", "std::option::Option") and _is_event_place(w.body, d[1]):
                     continue
                 atom = f"discr({d[2]})"
                 if any(re.search(rx, atom) for rx in table[sig]):
